@@ -292,6 +292,11 @@ def one_model(ctx, prog, script, rng):
                     m = fresh()
                     rec.plain(m, endo[0])[t] = bad
                     _rejection(ctx, m, t, dict(errors='raise'), None, 'pre-existing non-finite', script, n)
+                    for cfe in (False, True):
+                        # whether numerical errors are caught at the first statement or after the pass has nothing to do with it
+                        m = fresh()
+                        rec.plain(m, endo[0])[t] = bad
+                        _rejection(ctx, m, t, dict(errors='raise', catch_first_error=cfe), None, f'pre-existing non-finite, catch_first_error={cfe}', script, n)
                     if n > 1:
                         src = t + 1 if t + 1 < n else t - 1
                         m = fresh()
